@@ -1,138 +1,31 @@
 package store
 
-import (
-	"database/sql"
-	"fmt"
-	"strings"
-	"sync"
+import "verifharness/sqlfault"
 
-	sqlite3 "github.com/mattn/go-sqlite3"
-)
+// Read faults of the store family: thin wrappers around harness/sqlfault (SQLite authorizer), one operation at a time.
+var authPath string
 
-// Read faults. SQL triggers cannot make a SELECT fail, SQLite's authorizer can: it is consulted while a statement is
-// compiled (database/sql compiles every statement right before it runs it) and a denial makes exactly that statement fail
-// with SQLITE_AUTH - an ordinary storage error for the code under test. The hook is installed on the process-wide
-// "sqlite3" driver object (sql.DB.Driver() hands it out), so the stores open their files exactly as in production.
-//
-// A fault position is "the r-th read of the operation" (w = 0) or, relative to the writes of the operation, "the r-th read
-// after write w-1" - reads are the column reads, UPDATEs and BEGIN of the store's own tables; in the second form, if fewer
-// than r reads precede write w (INSERT/DELETE number w), write w itself is denied. Tables of the trigger injector (verif_*)
-// are not counted. With a position beyond the last read the COMMIT of the operation fails instead.
-const (
-	sqliteOK     = 0
-	sqliteDeny   = 1
-	opDelete     = 9
-	opInsert     = 18
-	opRead       = 20
-	opTransation = 22
-	opUpdate     = 23
-)
-
-type authState struct {
-	mu       sync.Mutex
-	path     string // armed for connections to this file ("" = off)
-	w, r     int
-	seenW    int
-	seenR    int
-	fired    bool
-	what     string
-	count    bool // only count the reads (probe run on the twin)
-	tables   []string // when set: reads are counted only on these tables (the node table of an append-only tree: read only by initCache)
-}
-
-var auth authState
-
-func init() {
-	db, err := sql.Open("sqlite3", ":memory:")
-	if err != nil {
-		panic(err)
-	}
-	drv, ok := db.Driver().(*sqlite3.SQLiteDriver)
-	db.Close()
-	if !ok {
-		panic("sqlite3 driver object is not *sqlite3.SQLiteDriver")
-	}
-	prev := drv.ConnectHook
-	drv.ConnectHook = func(c *sqlite3.SQLiteConn) error {
-		if prev != nil {
-			if err := prev(c); err != nil {
-				return err
-			}
-		}
-		file := c.GetFilename("main")
-		c.RegisterAuthorizer(func(op int, a1, a2, _ string) int { return auth.decide(file, op, a1, a2) })
-		return nil
-	}
-}
-
-func (a *authState) decide(file string, op int, a1, a2 string) int {
-	a.mu.Lock()
-	defer a.mu.Unlock()
-	if a.path == "" || a.fired || !strings.HasSuffix(file, a.path) {
-		return sqliteOK
-	}
-	switch op {
-	case opInsert, opDelete:
-		if a.count {
-			return sqliteOK
-		}
-		if strings.HasPrefix(a1, "verif_") || strings.HasPrefix(a1, "sqlite_") {
-			return sqliteOK
-		}
-		a.seenW++
-		if a.seenW == a.w {
-			a.fired, a.what = true, fmt.Sprintf("write %d (%s)", a.seenW, a1)
-			return sqliteDeny
-		}
-	case opRead, opUpdate, opTransation:
-		if a.count {
-			if !(strings.HasPrefix(a1, "verif_") || strings.HasPrefix(a1, "sqlite_") || a1 == "c" || (op == opTransation && a1 != "BEGIN")) {
-				a.seenR++
-			}
-			return sqliteOK
-		}
-		if op == opTransation && a1 == "COMMIT" && a.w >= 0 {
-			// nothing was injected so far (the position lies beyond the last read / write of this operation): the COMMIT
-			// fails instead, so that an operation with an armed fault never succeeds (the behaviours continue as after a failure)
-			a.fired, a.what = true, "commit"
-			return sqliteDeny
-		}
-		if strings.HasPrefix(a1, "verif_") || strings.HasPrefix(a1, "sqlite_") || a1 == "c" || (op == opTransation && a1 != "BEGIN") {
-			return sqliteOK // ("c" is the CTE inside the trigger injector's slow statement)
-		}
-		if a.tables != nil {
-			hit := false
-			for _, t := range a.tables {
-				hit = hit || (op == opRead && a1 == t)
-			}
-			if !hit {
-				return sqliteOK
-			}
-		}
-		if a.w <= 0 || a.seenW == a.w-1 { // w = 0: reads are counted over the whole operation
-			a.seenR++
-			if a.seenR == a.r {
-				a.fired, a.what = true, fmt.Sprintf("read %d after write %d (%s.%s)", a.seenR, a.seenW, a1, a2)
-				return sqliteDeny
-			}
-		}
-	}
-	return sqliteOK
-}
-
-// armAuth: deny the r-th read after write w-1 of the store file at path (or write w itself).
+// armAuth: deny the r-th read after write w-1 of the store file at path (or write w itself); w = 0: the r-th read of the
+// whole operation (a position beyond the last read fails the COMMIT); w = -1: the same without the COMMIT fallback.
 func armAuth(path string, w, r int) {
-	auth.mu.Lock()
-	defer auth.mu.Unlock()
-	auth.path, auth.w, auth.r, auth.seenW, auth.seenR, auth.fired, auth.what, auth.count, auth.tables = path, w, r, 0, 0, false, "", false, nil
+	authPath = path
+	sqlfault.Arm(path, sqlfault.Spec{W: w, R: r})
 }
 
 // armAuthTables: deny the r-th column read of the given tables (whole operation).
 func armAuthTables(path string, tables []string, r int) {
-	armAuth(path, 0, r)
-	auth.mu.Lock()
-	auth.tables = tables
-	auth.mu.Unlock()
+	authPath = path
+	sqlfault.Arm(path, sqlfault.Spec{W: 0, R: r, Tables: tables})
+}
+
+// disarmAuth reports whether (and where) the fault was injected.
+func disarmAuth() (bool, string) {
+	if authPath == "" {
+		return false, ""
+	}
+	fired, what, _ := sqlfault.Disarm(authPath)
+	authPath = ""
+	return fired, what
 }
 
 // probeReads counts the reads of the operation by running it on the twin (rebuilt from the surviving history before and after).
@@ -140,21 +33,8 @@ func probeReads(kd kindDriver, op Op) (int, error) {
 	if err := kd.rebuildTwin(); err != nil {
 		return 0, err
 	}
-	auth.mu.Lock()
-	auth.path, auth.w, auth.r, auth.seenW, auth.seenR, auth.fired, auth.what, auth.count, auth.tables = kd.twinPath(), 0, 0, 0, 0, false, "", true, nil
-	auth.mu.Unlock()
+	sqlfault.Arm(kd.twinPath(), sqlfault.Spec{Count: true})
 	_ = kd.twinProcess(op)
-	auth.mu.Lock()
-	n := auth.seenR
-	auth.path, auth.count = "", false
-	auth.mu.Unlock()
+	_, _, n := sqlfault.Disarm(kd.twinPath())
 	return n, kd.rebuildTwin()
-}
-
-// disarmAuth reports whether (and where) the fault was injected.
-func disarmAuth() (bool, string) {
-	auth.mu.Lock()
-	defer auth.mu.Unlock()
-	auth.path = ""
-	return auth.fired, auth.what
 }
